@@ -509,12 +509,12 @@ def _impl(case, b):
 def model_case(case, obs):
     op, c = case["op"], case["case"]
     if op == "ser.todict":
-        return {"x": obs["v_iter"]}
-    return {"ty": c["ty"], "raw": obs["raw_iter"]}
+        return B._line_safe({"x": obs["v_iter"]})
+    return B._line_safe({"ty": c["ty"], "raw": obs["raw_iter"]})
 
 
 def project(case, obs):
-    return obs["out"]
+    return B._line_safe(obs["out"])      # see c05._LINE_SAFE: the driver's line protocol and U+0085 / U+2028 / U+2029
 
 
 def model_unmodelled(mo):
